@@ -245,14 +245,10 @@ func Run(ctx *common.Ctx) {
 		pct, slow := p.Yield, p.Slow
 		// synchronized instances of the program: now and then a routine sets them synchronized again or asks whether
 		// they are (both must be without effect; an instance reported as not synchronized raises an error that
-		// nothing in the model accounts for).  Not in programs with exits (see HasExit).
+		// nothing in the model accounts for).
 		var insts []int
-		exits := false
-		for _, rt := range p.Code {
-			exits = exits || HasExit(rt)
-		}
 		for x, kind := range p.Cells {
-			if (kind == "clos" || kind == "flavor") && !exits {
+			if kind == "clos" || kind == "flavor" {
 				insts = append(insts, x)
 			}
 		}
@@ -327,6 +323,12 @@ func Run(ctx *common.Ctx) {
 		ctx.Hist("shape:" + p.Shape)
 		ctx.Hist("search:" + verdict)
 		ctx.Hist(fmt.Sprintf("procs:%d", p.Procs))
+		for _, rt := range p.Code {
+			if HasExit(rt) {
+				ctx.Hist("programs with return-from / go")
+				break
+			}
+		}
 		if p.Cold {
 			ctx.Hist("rendering:routine bodies are never-called functions")
 		} else {
